@@ -33,6 +33,11 @@ CORPUS = [
     "p.T", "*p.T", "p.E", "p.Ptr", "*p.Ptr", "**p.Ptr", "[]p.Ptr", "p.Fn", "p.Sl", "p.Mp", "p.I", "p.J", "p.K", "p.Mix", "p.MixT", "*p.MixT", "p.Em", "*p.Em",
     "p.AT", "p.AI", "struct{ p.AT }", "p.G[int]", "p.G[*int]", "p.G[p.T]", "p.G[q.T]", "p.G[[]p.T]", "p.G[map[string]*q.T]", "p.G[p.G[int]]", "p.H[string, p.Ptr]", "*p.G[string]",
     "p.G[interface{ M() int }]", "p.G[any]", "p.G[error]", "p.G[chan (<-chan int)]", "p.G[map[*int]bool]", "T", "*T", "G[T]", "G[q.T]", "Mix", "MixT", "Ptr", "*Ptr",
+    "struct{ _ [0]func(); x int }", "[2]struct{ _ [0]func(); x int }", "struct{ F struct{ _ [0]func(); x int }; G int }", "struct{ x int; _ [0]func() }",
+    "struct{ lo, hi uint32; _ [0]uint64 }", "struct{ _ [0]func(); b bool }", "struct{ b bool; _ [0]complex128 }", "struct{ _ [0]*int; b uint8 }",
+    "struct{ _ int; x int }", "struct{ _ string }", "struct{ _ []int }", "struct{ _ func() }", "struct{ _ map[int]int; a int }", "struct{ _ struct{}; a int8 }",
+    "struct{ _ [0]struct{ _ []int } }", "[0]func()", "[0]uint64", "[3]struct{ a uint8; _ [0]uint32 }", "struct{ _ [0][]byte; _ [0]uint64; c uint16 }",
+    "map[struct{ _ [0]uint64; k uint8 }]int", "*struct{ _ [0]func() }", "struct{ _ interface{}; _ chan int }", "struct{ a uint8; _ uint64 }",
     "[2][]map[string]*p.G[byte]", "map[[2]p.E]chan<- func(...p.S) error", "p.G[func(int)]", "p.G[struct{ A int }]",
 ]
 
@@ -71,7 +76,12 @@ func dump(i int, t reflect.Type) {
 	if t.Kind() == reflect.Func && t.IsVariadic() {
 		v = "1"
 	}
-	fmt.Println("desc", i, hx(t.String()), int(t.Kind()), t.NumMethod(), hx(t.PkgPath()), hx(t.Name()), v, "M:", strings.Join(ms, " "), "| F:", strings.Join(fs, " "))
+	c := "0"
+	if t.Comparable() {
+		c = "1"
+	}
+	layout := fmt.Sprintf("%s,%d,%d,%d", c, t.Align(), t.FieldAlign(), t.Size())
+	fmt.Println("desc", i, hx(t.String()), int(t.Kind()), t.NumMethod(), hx(t.PkgPath()), hx(t.Name()), v, layout, "M:", strings.Join(ms, " "), "| F:", strings.Join(fs, " "))
 }
 '''
 
@@ -217,6 +227,8 @@ def run(ctx, args):
             parts = [x.strip() for x in rest.split("|")]
             descs[int(hf[1])] = {"sym": unhexs(hf[2]).decode(), "str": unhexs(hf[3]), "string": unhexs(hf[4]), "kind": int(hf[5]), "flags": hf[6],
                                  "uncommon": hf[7] == "1", "pkgpath": unhexs(hf[8]), "xcount": int(hf[9]),
+                                 "cmp": hf[10].split(",")[0] == "1", "align": int(hf[10].split(",")[1]), "falign": int(hf[10].split(",")[2]),
+                                 "size": int(hf[10].split(",")[3]), "fbv": hf[10].split(",")[4] == "1",
                                  "M": parts[0].split(), "F": parts[1][2:].split(), "IM": parts[2][3:].split(), "term": parts[3], "mset": parts[4]}
         elif line.startswith("pkg ") or line.startswith("under "):
             envlines.append(line)
@@ -264,7 +276,9 @@ def run(ctx, args):
             head, rest = line.split(" M: ", 1)
             hf = head.split(" ")
             parts = [x.strip() for x in rest.split("|")]
+            lay = hf[8].split(",")
             oracle[int(hf[1])] = {"string": unhexs(hf[2]), "kind": int(hf[3]), "nmethod": int(hf[4]), "pkgpath": unhexs(hf[5]), "name": unhexs(hf[6]), "variadic": hf[7] == "1",
+                                  "cmp": lay[0] == "1", "align": int(lay[1]), "falign": int(lay[2]), "size": int(lay[3]),
                                   "M": [tuple(unhexs(y) for y in x.split(",")) for x in parts[0].split()],
                                   "F": [x.split(",") for x in parts[1][2:].split()]}
     if len(oracle) != len(types_):
@@ -296,6 +310,16 @@ def run(ctx, args):
             if cls is None and ((types_[i][2] is not None and has_fallback_targ(types_[i][2])) or (types_[i][2] is None and re.search(r'\b[GH]\[[^\]]*(struct|func)', types_[i][1]))):
                 cls = ["targ-fallback-format"]
             report("string", i, "the emitted type string differs from reflect.Type.String()", {"llgo": d["string"].decode(), "go": o["string"].decode()}, cls)
+        # Comparable() <=> the descriptor has an Equal function; Align / FieldAlign / Size as the compiler computes them
+        if d["cmp"] != o["cmp"]:
+            report("comparable", i, "the descriptor %s an Equal function but reflect.Type.Comparable() is %s" % ("has" if d["cmp"] else "lacks", o["cmp"]), {"llgo": d["cmp"], "go": o["cmp"]})
+        if d["align"] != o["align"]:
+            report("align", i, "Align_ differs from reflect.Type.Align()", {"llgo": d["align"], "go": o["align"]})
+        if d["falign"] != o["falign"]:
+            report("fieldalign", i, "FieldAlign_ differs from reflect.Type.FieldAlign()", {"llgo": d["falign"], "go": o["falign"]})
+        if d["size"] != o["size"]:
+            report("size", i, "Size_ differs from reflect.Type.Size()", {"llgo": d["size"], "go": o["size"]})
+        stats["comparable:" + ("yes" if o["cmp"] else "no")] = stats.get("comparable:" + ("yes" if o["cmp"] else "no"), 0) + 1
         if d["kind"] != o["kind"]:
             report("kind", i, "the emitted kind differs from reflect.Type.Kind()", {"llgo": d["kind"], "go": o["kind"]})
         if (d["flags"][2] == "1") != o["variadic"]:
@@ -334,7 +358,7 @@ def run(ctx, args):
             samples.append({"type": types_[i][1], "ssa/abi": d["string"].decode(), "reflect": o["string"].decode(), "kind": KINDS[o["kind"]]})
 
     # ------------------------------------------------------------ (4) tie A: descriptors read back from llgo's IR
-    ir_info = ir_tie(ctx, types_, descs, stats, corr_bad)
+    ir_info = ir_tie(ctx, types_, descs, stats, corr_bad, oracle)
 
     # ------------------------------------------------------------ verdict
     if corr_bad:
@@ -348,6 +372,7 @@ def run(ctx, args):
     if any(s != "ok" for s in st.values()) and not ctx.violations:
         ctx.report_broken("Props/C15: " + ", ".join(n for n, s in st.items() if s != "ok"), st)
     ctx.coverage["samples"] = samples or [{"type": types_[0][1], "ssa/abi": descs[0]["string"].decode(), "reflect": oracle[0]["string"].decode()}]
+    ctx.coverage.pop("_ir_seen", None)
     ctx.coverage["ir_tie"] = ir_info
     ctx.coverage["not_covered"] = ("runtime/internal/lib/reflect and fmt at run time (Value get/set/convert, DeepEqual, method calls through reflect, fmt verbs), "
                                    "the pruning of method tables (checkReflect / filterAbiSymbol), field offsets and sizes (C08): no program importing reflect or fmt can be built by llgo in this sandbox")
@@ -362,7 +387,7 @@ def run(ctx, args):
                                "input_distribution": stats, "spec_failures_on_real_code": spec_fail, "correspondence_mismatches": len(corr_bad)})
 
 
-def ir_tie(ctx, types_, descs, stats, corr_bad):
+def ir_tie(ctx, types_, descs, stats, corr_bad, oracle):
     from vlib import e2e
     import glob
     quick = ctx.tier == "quick"
@@ -395,6 +420,7 @@ def ir_tie(ctx, types_, descs, stats, corr_bad):
         return {"ran": False}
     ir = irdesc.parse(open(max(cands, key=os.path.getmtime)).read())
     compared, missing = 0, 0
+    ir_layout_bad = []
     for i in pick:
         dd = descs[i]
         # &V_i is kept: the pointer type's descriptor references the element's, which is the type under test
@@ -414,6 +440,26 @@ def ir_tie(ctx, types_, descs, stats, corr_bad):
         if got != want:
             corr_bad.append((i, types_[i][1], "IR descriptor %s: emitted %s, ssa/abi says %s" % (dd["sym"], got, want)))
             continue
+        # Equal (comparability) always; Size/Align/FieldAlign unless a value of the type holds a func value (two-word closures)
+        named_func = dd["kind"] == 19 and dd["flags"][0] == "1"
+        if e["equal"] != dd["cmp"] and not named_func:
+            corr_bad.append((i, types_[i][1], "IR descriptor %s: Equal function %s, ssa/abi EqualName says %s" % (dd["sym"], "present" if e["equal"] else "absent", dd["cmp"])))
+            ir_layout_bad.append((i, "comparable", e["equal"]))
+        if not dd["fbv"] and (e["size"], e["align"], e["fieldalign"]) != (dd["size"], dd["align"], dd["falign"]):
+            corr_bad.append((i, types_[i][1], "IR descriptor %s: size/align/fieldalign emitted %s, ssa/abi says %s" % (dd["sym"], (e["size"], e["align"], e["fieldalign"]), (dd["size"], dd["align"], dd["falign"]))))
+        stats["ir-tie:layout-compared"] = stats.get("ir-tie:layout-compared", 0) + (0 if dd["fbv"] else 1)
+        # the EMITTED descriptor against the reference toolchain's reflect, directly
+        o = oracle[i]
+        ir_seen = ctx.coverage.setdefault("_ir_seen", {})
+        def ir_report(aspect, what, detail):
+            ir_seen[aspect] = ir_seen.get(aspect, 0) + 1
+            if ir_seen[aspect] <= 3:
+                ctx.report("reflect-ir:%s:%s" % (aspect, types_[i][1][:100]), what, dict(detail, type=types_[i][1], symbol=dd["sym"]))
+        if e["equal"] != o["cmp"] and not named_func:
+            ir_report("comparable", "the emitted descriptor %s an Equal function but reflect.Type.Comparable() is %s" % ("has" if e["equal"] else "lacks", o["cmp"]), {"llgo_ir": e["equal"], "go": o["cmp"]})
+        if not dd["fbv"] and (e["size"], e["align"], e["fieldalign"]) != (o["size"], o["align"], o["falign"]):
+            ir_report("layout", "Size_/Align_/FieldAlign_ of the emitted descriptor differ from reflect's Size()/Align()/FieldAlign()",
+                      {"llgo_ir": [e["size"], e["align"], e["fieldalign"]], "go": [o["size"], o["align"], o["falign"]]})
         if dd["uncommon"]:
             u = e["uncommon"]
             hm = [(unhexs(dd["M"][k]), unhexs(dd["M"][k + 1]).decode()) for k in range(0, len(dd["M"]), 2)]
